@@ -91,6 +91,28 @@ def fsets(xs):
         seen.add(key)
         out.append(i)
     return tuple(out)
+def guard_match(c, d):
+    match c:
+        case 1 if d > 2:
+            return 'one-big'
+        case 1:
+            return 'one'
+        case 2 | 3 if d == 0:
+            return 'few-zero'
+        case _:
+            return 'other'
+def set_update(xs, ys):
+    s = set(xs)
+    s.update(ys)
+    s.update(y + 1 for y in ys)
+    return tuple(sorted(s))
+def native_iter(xs):
+    out = []
+    for x in iter(()):
+        out.append(x)
+    for x in reversed(xs):
+        out.append(x)
+    return tuple(out)
 def sorted_key(xs):
     return tuple(sorted(xs, key=lambda v: (-v % 3, v)))
 '''
@@ -111,7 +133,7 @@ CASES = {
     'condexpr': [(a, b) for a in small for b in small], 'guard': [(a, b) for a in small for b in small], 'match_': [(c,) for c in small],
     'zipped': [(l, m) for l in lists for m in lists], 'extend_comp': [(l,) for l in lists], 'anyall': [(l, t) for l in lists for t in (0, 2)],
     'chained': [(a, b, c) for a in (0, 1, 2) for b in (0, 1, 2) for c in (0, 1, 2)], 'swap': [(a, b) for a in small for b in small],
-    'nested': [(l,) for l in lists], 'fsets': [(l,) for l in lists + [(1, 2, 4, 5, 1, 2), (3, 0, 0, 3, 6, 9)]], 'sorted_key': [(l,) for l in lists],
+    'nested': [(l,) for l in lists], 'guard_match': [(c, d) for c in small for d in small], 'set_update': [(l, m) for l in lists for m in lists], 'native_iter': [(l,) for l in lists], 'fsets': [(l,) for l in lists + [(1, 2, 4, 5, 1, 2), (3, 0, 0, 3, 6, 9)]], 'sorted_key': [(l,) for l in lists],
 }
 
 
